@@ -26,4 +26,6 @@ pub mod secretstore;
 pub mod txbase;
 pub mod velocity;
 pub mod vmc;
+pub mod wire_gen;
+pub mod wirert;
 pub mod world;
